@@ -80,11 +80,11 @@ def run_func(repo, qual, env, file=FILE, extra_imports=None):
 
 def make_circuit(spec):
     """spec: {name: (type, [fanin...])} -> MCircuit + plain dicts"""
-    attrs = {n: {"type": t, "output": False} for n, (t, fi) in spec.items()}
-    edges = [(f, n) for n, (t, fi) in spec.items() for f in fi]
+    from ..refmodel import build
+
     types = {n: t for n, (t, fi) in spec.items()}
     fanin = {n: list(fi) for n, (t, fi) in spec.items()}
-    return MCircuit(attrs, edges), types, fanin
+    return build(spec), types, fanin
 
 
 def check_encoding(formula, variables, types, fanin):
@@ -218,6 +218,9 @@ def run(chk):
         "constants": {"a": ("input", []), "z": ("0", []), "w": ("1", []), "g1": ("or", ["z", "a"]), "g2": ("nand", ["w", "a"]), "g3": ("nor", ["g1", "g2", "z"])},
         "blackbox-pins": {"a": ("input", []), "u.q": ("bb_output", []), "w": ("buf", ["u.q"]), "g": ("and", ["w", "a"]), "u.d": ("bb_input", ["g"]), "n": ("not", ["u.d"])},
         "single-input-demotion": {"a": ("input", []), "g1": ("nand", ["a"]), "g2": ("xnor", ["g1"]), "g3": ("or", ["g2"]), "g4": ("xor", ["g3"]), "g5": ("nor", ["g4"]), "g6": ("and", ["g5"])},
+        "same-nets-under-several-parity-gates": {"a": ("input", []), "b": ("input", []), "g1": ("xor", ["a", "b"]), "g2": ("xnor", ["a", "b"]), "g3": ("xor", ["a", "b"]), "o": ("and", ["g1", "g2", "g3"])},
+        "parity-gates-on-one-bus": {"a": ("input", []), "b": ("input", []), "c": ("input", []), "p": ("xor", ["a", "b", "c"]), "q": ("xnor", ["a", "b", "c"]), "r": ("xnor", ["a", "b", "c"]),
+                                    "o": ("or", ["p", "q", "r"])},
         "adversarial-names": {"a": ("input", []), "b_c": ("input", []), "a_b": ("input", []), "c": ("input", []), "xor_inv_g": ("input", []),
                               "g": ("xnor", ["a", "b_c", "xor_inv_g"]), "h": ("xor", ["a_b", "c", "a"])},
     }
@@ -230,6 +233,22 @@ def run(chk):
         formula, variables = r[1]
         ok, detail = check_encoding(formula, variables, types, fanin)
         chk.ob("C01.M.multi-gate", f"cnf::model::{mname}", ok, file=FILE, func="cnf", line=fi.node.lineno, fact=detail, expect="models == consistent valuations, one per startpoint assignment")
+    # no stale memoised encoding after an in-place edit that keeps node / edge counts
+    from ..stale import stale_state_rule
+
+    def _enc(cc):
+        r = run_func(repo, "cnf", {cname: cc})
+        if r[0] != "return":
+            raise ModelRaise(r[1], "")
+        f, v = r[1]
+        return f, v
+
+    def _snap(fv):
+        f, v = fv
+        inv = {i: repr(k) for k, i in v._ids.items()}
+        return sorted(sorted((("-" if l < 0 else "+") + inv.get(abs(l), "?")) for l in cl) for cl in f.clauses)
+
+    stale_state_rule(chk, "C01.H.no-stale-encoding", _enc, _snap, FILE, "cnf")
     # unknown type falls to an explicit raise
     c = MCircuit({"g": {"type": "mystery", "output": False}}, [])
     r = run_func(repo, "cnf", {cname: c})
